@@ -112,6 +112,22 @@ func StallHist(idx, proto int) *Hist {
 	return &Hist{Index: idx, Proto: proto, TimeoutMs: 150, Stall: true, Fates: []Fate{FNever, FNever}, CModes: []CMode{CNone, CNone}}
 }
 
+// CoalCancelHist is one history of the coalescer-cancellation family (variant selects sizes and order).
+func CoalCancelHist(idx, proto, variant int) *Hist {
+	k := 4 + 3*(variant%3)
+	h := &Hist{Index: idx, Proto: proto, Coalesce: true, CoalCancel: true, CoalesceMs: 40, CancelMs: 8 + 4*(variant%2),
+		CancelN: 2 + variant%3, TimeoutMs: 5000, Order: node.Order(variant % 3), OrderSeed: uint64(17 + variant), Wave2: 6 + 2*(variant%3)}
+	h.Fates = make([]Fate, k)
+	h.CModes = make([]CMode, k)
+	for i := range h.Fates {
+		if i < h.CancelN {
+			h.Fates[i] = FLate
+			h.CModes[i] = CDeadline
+		}
+	}
+	return h
+}
+
 // Term prints the report's logs as a Coq term of type C01.Corr.case.
 func (rep *Report) Term() string {
 	var logs []string
@@ -169,6 +185,8 @@ func Emit(o *hlib.Out, reps []*Report) {
 		switch {
 		case h.Stall:
 			kind = "stall-midbody"
+		case h.CoalCancel:
+			kind = "coalescer-cancel"
 		case h.Handshake != 0:
 			kind = "handshake-failure"
 		case h.Event != EvNone:
